@@ -226,6 +226,11 @@ func ClassifyStream(stream *bufio.Reader) (isArmored bool, brand string, message
 		return true, brand, messageType, ver, err
 	} else if err == ErrShortSliceOrBuffer {
 		return false, "", MessageTypeUnknown, Version{}, ErrShortSliceOrBuffer
+	} else if err != ErrNotASaltpackMessage && err != io.EOF {
+		// An error of the underlying reader. A bufio.Reader forgets a
+		// read error once it has reported it, so peeking again below
+		// could succeed and the error would never reach the caller.
+		return false, "", MessageTypeUnknown, Version{}, err
 	}
 	messageType, ver, err = IsSaltpackBinary(stream)
 	if err == nil {
